@@ -3,6 +3,12 @@ C18 -- StringGrader matches exactly the inputs equal after the configured cleani
 accept_any / accept_nonempty minimums; validation patterns must match the whole
 cleaned submission.
 
+Families added by the gap review (second half of the file): validation patterns under EVERY cleaning-flag set
+and a second pattern pool (empty pattern, lazy quantifiers, back-reference, inline flag ...); validation together
+with min_length / min_words; every option omitted (documented defaults); runs and strings far beyond the
+exhaustive length bound; 2-4 digit minimums; several expected answers (first vs later); all ASCII punctuation and
+a wide Unicode unit alphabet; the expect argument with falsy values; the grader inside a ListGrader.
+
 ENUM only.  Every case builds (or reuses, for cases with the same configuration) a real
 StringGrader, calls it as edX would -- grader(None, submission) -- and compares the
 verdict / message / error with the reference model in mcv/refs/c18_ref.py, which is
@@ -20,7 +26,11 @@ RULE = ('pairs (expected, submission) over small alphabets x all 16 cleaning-fla
         'enumerated completely; a matching case is non-trivial when the two raw strings differ but become equal '
         'under the most permissive cleaning (so the verdict depends on the flags); an accept-any case when the '
         'cleaned submission is within one character / one word of a minimum; a validation case when the '
-        'submission contains a member of the pattern language as a proper part or is a member')
+        'submission contains a member of the pattern language as a proper part or is a member.  Further families '
+        'widen one dimension each over a small fixed pool: validation x all 16 flag sets and a second pattern pool, '
+        'validation x minimums, options omitted, white-space runs of up to 129 units and strings of up to 1099 '
+        'characters, minimums of 10/100/1000, two expected answers in every order and credit form, 85 punctuation / '
+        'Unicode units pairwise, empty expect arguments, the StringGrader as a ListGrader subgrader')
 EXPLANATION = ('states = distinct (configuration, expected, submission) cases; transitions = calls of the real '
                'StringGrader.__call__; every call runs the implementation, so traces_validated_against_impl = calls')
 ASSUMPTIONS = [
@@ -39,6 +49,20 @@ ASSUMPTIONS = [
     'when a submission fails validation and the minimums, either prescribed refusal is accepted',
     'that a non-conforming expected answer is a ConfigError is taken from docs/string_grader.md (family '
     'validation_expect_conformance), not from the property statement',
+    'defaults of omitted options (flags, min_length 0, min_words 0, explain_* "err", the invalid_msg text) are taken '
+    'from docs/string_grader.md',
+    'zero-width space and BOM (ZERO WIDTH NO-BREAK SPACE) at an end under strip are left open like Unicode white '
+    'space; inside a string they must be kept like any other character; zero-width joiners, soft hyphen, NUL, DEL '
+    'are ordinary characters everywhere',
+    'cased letters added for the unit alphabet: U-umlaut, Greek lambda, fullwidth A (simple one-to-one pairs); '
+    'letters whose case mapping changes length or is context dependent (sharp s, dotted I, final sigma) and '
+    'canonically equivalent spellings are only used where the statement decides: precomposed and decomposed '
+    'e-acute are DIFFERENT strings (no character is altered)',
+    'with several expected answers the result is the best credit among the matching ones (docs/item_grader.md); '
+    'ties between equal credits do not occur in the enumerated forms',
+    'validation_all_flags, quick tier: explain_validation takes one of its three values per configuration, fixed by '
+    '(pattern index + flag set + mode index) mod 3 -- a deterministic covering, all three values occur for every '
+    'pattern and every mode; the thorough tier enumerates the full product',
 ]
 
 CORRECT = {'ok': True, 'grade_decimal': 1, 'msg': ''}
@@ -719,7 +743,820 @@ class ExpectConformance(Family):
                            'ConfigError', show(out)))
 
 
+# ------------------------------------------------------------------------------ validation x every flag set
+
+WS_POOL = ['', ' ', 'cat', 'Cat', 'CAT', ' cat', 'cat ', ' cat ', '  cat  ', '\tcat\n', 'c at', 'cat dog', 'cat  dog',
+           'cat\tdog', 'cat\r\ndog', ' cat dog ', 'catdog', 'CAT DOG', 'Cat Dog', 'cat dog fish', 'a b', 'a  b',
+           'a   b', 'a\t b', 'a \nb', 'A  B', 'ab', ' a  b', 'NH_3', 'N H _ 3', 'nh_3', 'NH_3 ', ' N H_3', 'KCl',
+           'H_', 'CO_2', 'C O', 'H  2']
+OTHER_POOL = ['', ' ', 'a', 'aa', 'aaa', 'a a', 'aA', 'AA', 'bb', 'ab', 'ba', 'aab', ' aa', 'aa ', 'ac', 'abc',
+              'abcd', 'abbcd', 'abcc', 'abcdx', 'xabc', 'ABC', 'ct', 'c t', 'cat', 'catt', 'cat t', 'tcat', 'cab',
+              'Cat', 'CAT', 'cAt', 'cats', '$12', '$', '$1a', '12', '$ 12', ' $12', '$12$', '$12\n']
+VMODES2 = ['compare', 'compare-expect', 'any', 'nonempty', 'both']
+ACCEPT_KW = {'any': {'accept_any': True}, 'nonempty': {'accept_nonempty': True},
+             'both': {'accept_any': True, 'accept_nonempty': True}}
+
+
+def contains_member(cleaned, lang):
+    return bool(lang(cleaned)) or any(lang(cleaned[i:j]) for i in range(len(cleaned))
+                                      for j in range(i + 1, len(cleaned) + 1))
+
+
+def judge_validated(out, rx, cls, lang, ans, bits, vm, explain, explain_min, s, ml=0, mw=0,
+                    invalid_msg=INVALID_MSG):
+    """oracle for a grader with a validation pattern, any flag set, any mode, any minimums.
+    vm: 'compare' / 'compare-expect' (answer `ans` must conform, docs) or 'any' / 'nonempty' / 'both'."""
+    cleaned = ref.normal_form(s, bits)
+    valid = bool(lang(cleaned))
+    nontrivial = contains_member(cleaned, lang) or cleaned != s
+
+    def refusal_validation():
+        if invalid_msg == INVALID_MSG:
+            return judge_refusal_validation(out, explain)
+        # another invalid_msg (the documented default text): same three forms
+        if explain == 'err':
+            if out[0] != 'err' or 'InvalidInput' not in exc_names(out[1]):
+                return 'expected an InvalidInput error'
+            return None if str(out[1]) == invalid_msg else 'error message is not the documented default invalid_msg'
+        if out[0] != 'ok':
+            return 'expected to be graded incorrect, got an error'
+        want = {'ok': False, 'grade_decimal': 0, 'msg': invalid_msg if explain == 'msg' else ''}
+        return None if is_result(out[1], want) else 'expected %r' % (want,)
+
+    def bad_refusal(why):
+        passed = out[0] == 'ok' and isinstance(out[1], dict) and (
+            is_result(out[1], CORRECT) or is_result(out[1], WRONG))
+        if passed:
+            return Result('WRONG:invalid-passes', nontrivial,
+                          viol(validation_sig('validation:%s-passes' % passes_kind(cleaned, lang), cls),
+                               '%s: cleaned submission %r is not matched entirely by %r but was graded as if '
+                               'valid (explain_validation=%r)' % (ref.flag_name(bits), cleaned, rx, explain),
+                               'refusal as explain_validation=%r' % explain, show(out)))
+        return Result('WRONG:refusal-form', nontrivial,
+                      viol('validation:refusal-form:%s' % explain,
+                           '%s (%s, cleaned %r, pattern %r)' % (why, ref.flag_name(bits), cleaned, rx),
+                           'refusal as explain_validation=%r' % explain, show(out)))
+
+    if vm in ('compare', 'compare-expect'):
+        cans = ref.normal_form(ans, bits)
+        if not lang(cans):
+            if out[0] == 'err' and 'ConfigError' in exc_names(out[1]):
+                return Result('config-error:answer-nonconforming', nontrivial)
+            return Result('WRONG:no-config-error', nontrivial,
+                          viol(validation_sig('validation:expect-%s-passes' % passes_kind(cans, lang), cls),
+                               '%s: cleaned answer %r is not in the language of %r but no ConfigError'
+                               % (ref.flag_name(bits), cans, rx), 'ConfigError', show(out)))
+        if not valid:
+            why = refusal_validation()
+            if why is None:
+                return Result('refused-validation:%s' % explain, nontrivial)
+            return bad_refusal(why)
+        want = CORRECT if cleaned == cans else WRONG
+        if out[0] == 'ok' and is_result(out[1], want):
+            return Result('valid:' + ('correct' if want is CORRECT else 'incorrect'), nontrivial)
+        return Result('WRONG:valid-misgraded', nontrivial,
+                      viol('validation:matching-input-misgraded',
+                           '%s: cleaned %r is in the language of %r; expected plain comparison with %r'
+                           % (ref.flag_name(bits), cleaned, rx, cans), want, show(out)))
+
+    need = max(ml, 1) if vm in ('nonempty', 'both') else ml
+    chars = len(cleaned)
+    words = ref.count_words(cleaned)
+    failing = []
+    if chars < need:
+        failing.append((chars, need, 'character'))
+    if words < mw:
+        failing.append((words, mw, 'word'))
+    if valid and not failing:
+        if out[0] == 'ok' and is_result(out[1], CORRECT):
+            return Result('valid:accepted', nontrivial)
+        return Result('WRONG:valid-refused', nontrivial,
+                      viol('validation:matching-input-refused',
+                           '%s: cleaned %r is in the language of %r and meets the minimums (%d/%d characters, '
+                           '%d/%d words)' % (ref.flag_name(bits), cleaned, rx, chars, need, words, mw),
+                           CORRECT, show(out)))
+    if out[0] == 'ok' and isinstance(out[1], dict) and out[1].get('grade_decimal', 0) > 0 and valid:
+        return Result('WRONG:accepted', nontrivial,
+                      viol('minimums:accepted-below-minimum:%s' % '+'.join(u for _, _, u in failing),
+                           '%s: cleaned %r matches %r but has %d/%d characters, %d/%d words'
+                           % (ref.flag_name(bits), cleaned, rx, chars, need, words, mw),
+                           'refusal (%r)' % explain_min, show(out)))
+    if valid:
+        why = judge_refusal_min(out, explain_min, failing)
+        if why is None:
+            return Result('valid:refused-minimums:%s' % explain_min, nontrivial)
+        return Result('WRONG:minimums-form', nontrivial,
+                      viol('minimums:refusal-form:%s' % explain_min,
+                           '%s (cleaned %r: %d/%d characters, %d/%d words)' % (why, cleaned, chars, need, words, mw),
+                           'refusal as explain_minimums=%r' % explain_min, show(out)))
+    why = refusal_validation()
+    if why is None:
+        return Result('refused-validation:%s' % explain, nontrivial)
+    if failing and judge_refusal_min(out, explain_min, failing) is None:
+        return Result('refused-minimums-first:%s' % explain_min, nontrivial)
+    return bad_refusal(why)
+
+
+def selfcheck_patterns2(pools):
+    for name, rx, wsens, ans, lang in ref.PATTERNS2:
+        c = re.compile(rx)
+        for s in pools:
+            for bits in range(16):
+                t = ref.normal_form(s, bits)
+                if bool(c.fullmatch(t)) != bool(lang(t)):
+                    raise HarnessError('reference language of %r disagrees with re.fullmatch on %r' % (rx, t))
+
+
+class ValidationAllFlags(Family):
+    name = 'validation_all_flags'
+    timeout = 5.0
+    rule = ('second pattern pool %r: the white-space sensitive ones x all 16 cleaning-flag sets, the others '
+            '(empty pattern, lazy quantifiers, back-reference, escaped dollar, inline flag, nested alternation) x '
+            '{documented defaults, every flag off} (thorough: all 16) x {compare with the answer in the '
+            'configuration, compare with the answer inferred from the expect argument, accept_any, accept_nonempty; '
+            'thorough adds accept_any+accept_nonempty} x explain_validation (quick: one value per configuration, '
+            'fixed by (pattern index + flag set + mode index) mod 3; thorough: all three) x a pool of %d / %d '
+            'submissions (members, members with white space or case the cleaning may or may not remove, near '
+            'misses): the pattern must be tested against the submission cleaned with EVERY configured step; an '
+            'answer that does not conform after cleaning is a ConfigError (docs); non-trivial = cleaning changes '
+            'the submission or the cleaned submission contains a member'
+            % ([p[1] for p in ref.PATTERNS2], len(WS_POOL), len(OTHER_POOL)))
+
+    def setup(self, tier):
+        from mitxgraders import StringGrader
+        self.SG = StringGrader
+        self.cache = GraderCache()
+        selfcheck_patterns2(WS_POOL + OTHER_POOL)
+
+    def cases(self, tier):
+        modes = VMODES2 if tier != 'quick' else VMODES2[:4]
+        for wsens, pool in ((True, WS_POOL), (False, OTHER_POOL)):
+            keys = []
+            for pi, p in enumerate(ref.PATTERNS2):
+                if p[2] != wsens:
+                    continue
+                flagsets = list(range(16)) if (wsens or tier != 'quick') else [DEFAULT_BITS, 0]
+                for mi, vm in enumerate(modes):
+                    for bits in flagsets:
+                        exs = [(pi + bits + mi) % 3] if tier == 'quick' else [0, 1, 2]
+                        for ex in exs:
+                            keys.append((p[0], vm, ex, bits))
+            for key, s in chunked(keys, pool):
+                yield key + (s,)
+
+    def describe(self, case):
+        name, vm, ex, bits, s = case
+        p = ref.PATTERN2_BY_NAME[name]
+        return {'validation_pattern': p[1], 'mode': vm, 'explain_validation': EXPLAINS[ex],
+                'explain_minimums': EXPLAINS[(ex + 1) % 3], 'flags': ref.flag_name(bits),
+                'answer': repr(p[3]) if vm.startswith('compare') else None, 'submission': repr(s)}
+
+    def check(self, case):
+        name, vm, ex, bits, s = case
+        _, rx, wsens, ans, lang = ref.PATTERN2_BY_NAME[name]
+        explain = EXPLAINS[ex]
+        explain_min = EXPLAINS[(ex + 1) % 3]
+
+        def build():
+            kw = dict(validation_pattern=rx, explain_validation=explain, explain_minimums=explain_min,
+                      invalid_msg=INVALID_MSG)
+            kw.update(ref.flag_kwargs(bits))
+            if vm == 'compare':
+                kw['answers'] = ans
+            elif vm != 'compare-expect':
+                kw.update(ACCEPT_KW[vm])
+            return self.SG(**kw)
+        try:
+            g = self.cache.get((name, vm, ex, bits), build)
+        except Exception as e:      # noqa -- a ConfigError at construction is judged like one at the call
+            out = ('err', e)
+        else:
+            out = run(g, ans if vm == 'compare-expect' else None, s)
+        return judge_validated(out, rx, 'flags:' + name, lang, ans, bits, vm, explain, explain_min, s)
+
+
+INTERPLAY_PATTERNS = {
+    'abc-space': (r'[a-c ]*', lambda t: all(c in 'abc ' for c in t)),
+    'words': (r'\S+( \S+)*', ref.PATTERN2_BY_NAME['words'][4]),
+}
+INTERPLAY_SUBS = ['', ' ', 'a', 'ab', 'abc', 'a b', 'a  b', ' a ', 'a b c', 'ab c', 'd', 'a d', 'abd', 'a b d',
+                  'a\tb', 'A', 'a.b', 'aa bb', '   ', 'abcd']
+INTERPLAY_MINS = [(0, 0), (2, 0), (0, 2), (3, 2)]
+
+
+class ValidationWithMinimums(Family):
+    name = 'validation_with_minimums'
+    timeout = 5.0
+    rule = ('patterns %r x {accept_any, accept_nonempty, both} x (min_length, min_words) in %r x explain_validation '
+            '{err,msg,None} x explain_minimums {err,msg,None} (all 9 combinations, so equal settings occur) x '
+            '{documented default flags; thorough adds strip/clean_spaces off and strip_all} x %d submissions: a '
+            'submission is accepted iff the cleaned form is in the pattern language AND meets both minimums; a '
+            'valid but short one is refused as explain_minimums prescribes, an invalid but long enough one as '
+            'explain_validation prescribes, an invalid short one in either way'
+            % ([v[0] for v in INTERPLAY_PATTERNS.values()], INTERPLAY_MINS, len(INTERPLAY_SUBS)))
+
+    def setup(self, tier):
+        from mitxgraders import StringGrader
+        self.SG = StringGrader
+        self.cache = GraderCache()
+        for rx, lang in INTERPLAY_PATTERNS.values():
+            c = re.compile(rx)
+            for s in INTERPLAY_SUBS:
+                for bits in range(16):
+                    t = ref.normal_form(s, bits)
+                    if bool(c.fullmatch(t)) != bool(lang(t)):
+                        raise HarnessError('reference language of %r disagrees with re.fullmatch on %r' % (rx, t))
+
+    def cases(self, tier):
+        flagsets = [DEFAULT_BITS] if tier == 'quick' else [DEFAULT_BITS, 0b0001, 0b1001]
+        keys = [(pn, vm, mi, exv, exm, bits) for pn in sorted(INTERPLAY_PATTERNS) for vm in ('any', 'nonempty', 'both')
+                for mi in range(len(INTERPLAY_MINS)) for exv in (0, 1, 2) for exm in (0, 1, 2) for bits in flagsets]
+        for key, s in chunked(keys, INTERPLAY_SUBS):
+            yield key + (s,)
+
+    def describe(self, case):
+        pn, vm, mi, exv, exm, bits, s = case
+        ml, mw = INTERPLAY_MINS[mi]
+        return {'validation_pattern': INTERPLAY_PATTERNS[pn][0], 'mode': vm, 'min_length': ml, 'min_words': mw,
+                'explain_validation': EXPLAINS[exv], 'explain_minimums': EXPLAINS[exm],
+                'flags': ref.flag_name(bits), 'submission': repr(s)}
+
+    def check(self, case):
+        pn, vm, mi, exv, exm, bits, s = case
+        rx, lang = INTERPLAY_PATTERNS[pn]
+        ml, mw = INTERPLAY_MINS[mi]
+
+        def build():
+            kw = dict(validation_pattern=rx, explain_validation=EXPLAINS[exv], explain_minimums=EXPLAINS[exm],
+                      invalid_msg=INVALID_MSG, min_length=ml, min_words=mw)
+            kw.update(ref.flag_kwargs(bits))
+            kw.update(ACCEPT_KW[vm])
+            return self.SG(**kw)
+        g = self.cache.get((pn, vm, mi, exv, exm, bits), build)
+        out = run(g, None, s)
+        return judge_validated(out, rx, 'minimums:' + pn, lang, None, bits, vm, EXPLAINS[exv], EXPLAINS[exm], s,
+                               ml=ml, mw=mw)
+
+
+# ------------------------------------------------------------------------------ options left at their default
+
+FLAG_NAMES = ['case_sensitive', 'strip', 'clean_spaces', 'strip_all']
+DEF_STRS = ['', 'a', 'A', ' a', 'a ', 'a a', 'a  a', 'aa', 'a\ta', 'A a', ' ', 'a A']
+DEFAULT_INVALID_MSG = 'Your input is not in the expected format'      # docs/string_grader.md
+MIN_OMITS = [('explain_minimums',), ('min_length',), ('min_words',), ('explain_minimums', 'min_length', 'min_words')]
+VAL_OMITS = [('explain_validation',), ('invalid_msg',), ('explain_validation', 'invalid_msg')]
+DEF_MIN_SUBS = ['', ' ', 'a', 'aa', ' a', 'a a', 'a  a', 'aaa', 'a.a', 'a a a', '\ta\n', 'a  ']
+DEF_VAL_SUBS = ['cat', 'dog', '', 'cat ', 'catfish', 'Cat']
+
+
+class Defaults(Family):
+    name = 'options_left_at_default'
+    timeout = 5.0
+    rule = ('every option of the statement OMITTED from the configuration instead of passed: (flag) each of the four '
+            'cleaning flags omitted x all 8 explicit settings of the other three x every pair from %r (thorough: '
+            'also with the configuration given as one positional dictionary); (min) explain_minimums / min_length / '
+            'min_words / all three omitted x {accept_any, accept_nonempty, both} x the others in min_length {0,2}, '
+            'min_words {0,2}, explain_minimums {msg,None} x %d submissions; (val) explain_validation / invalid_msg / '
+            'both omitted x explain_validation {err,msg,None} where given x {compare, accept_any, accept_nonempty} '
+            'x pattern "cat" x %r.  Documented defaults: case_sensitive, strip, clean_spaces on, strip_all off, '
+            'min_length 0, min_words 0, explain_minimums "err", explain_validation "err", invalid_msg %r'
+            % (DEF_STRS, len(DEF_MIN_SUBS), DEF_VAL_SUBS, DEFAULT_INVALID_MSG))
+
+    def setup(self, tier):
+        from mitxgraders import StringGrader
+        self.SG = StringGrader
+        self.cache = GraderCache()
+
+    def cases(self, tier):
+        routes = [0] if tier == 'quick' else [0, 1]
+        keys = [(which, other, route, e) for which in range(4) for other in range(8) for route in routes
+                for e in DEF_STRS]
+        for (which, other, route, e), s in chunked(keys, DEF_STRS):
+            yield ('flag', which, other, route, e, s)
+        keys = [(mode, oi, ml, mw, exi) for mode in ('any', 'nonempty', 'both') for oi in range(len(MIN_OMITS))
+                for ml in (0, 2) for mw in (0, 2) for exi in (1, 2)]
+        for key, s in chunked(keys, DEF_MIN_SUBS):
+            yield ('min',) + key + (s,)
+        keys = [(oi, exi, vm) for oi in range(len(VAL_OMITS)) for exi in (0, 1, 2)
+                for vm in ('compare', 'any', 'nonempty')]
+        for key, s in chunked(keys, DEF_VAL_SUBS):
+            yield ('val',) + key + (s,)
+
+    def describe(self, case):
+        kind = case[0]
+        if kind == 'flag':
+            _, which, other, route, e, s = case
+            kw, bits = self.flag_config(which, other)
+            return {'kind': 'cleaning flag omitted', 'omitted': FLAG_NAMES[which], 'given': kw,
+                    'configuration as': 'positional dict' if route else 'keywords',
+                    'expected': repr(e), 'submission': repr(s)}
+        if kind == 'min':
+            _, mode, oi, ml, mw, exi, s = case
+            return {'kind': 'minimum options omitted', 'omitted': MIN_OMITS[oi], 'mode': mode, 'min_length': ml,
+                    'min_words': mw, 'explain_minimums': EXPLAINS[exi], 'submission': repr(s)}
+        _, oi, exi, vm, s = case
+        return {'kind': 'validation options omitted', 'omitted': VAL_OMITS[oi], 'explain_validation': EXPLAINS[exi],
+                'mode': vm, 'validation_pattern': 'cat', 'submission': repr(s)}
+
+    @staticmethod
+    def flag_config(which, other):
+        """-> (kwargs without FLAG_NAMES[which], effective bits)"""
+        defaults = ref.flag_tuple(DEFAULT_BITS)
+        vals = []
+        k = 0
+        for i in range(4):
+            if i == which:
+                vals.append(defaults[i])
+            else:
+                vals.append(bool(other >> k & 1))
+                k += 1
+        kw = {FLAG_NAMES[i]: vals[i] for i in range(4) if i != which}
+        bits = sum(1 << i for i in range(4) if vals[i])
+        return kw, bits
+
+    def check(self, case):
+        kind = case[0]
+        if kind == 'flag':
+            _, which, other, route, e, s = case
+            kw, bits = self.flag_config(which, other)
+
+            def build():
+                cfg = dict(kw, answers=e)
+                return self.SG(cfg) if route else self.SG(**cfg)
+            g = self.cache.get(('flag', which, other, route, e), build)
+            return judge_match(run(g, None, s), e, s, bits)
+        if kind == 'min':
+            _, mode, oi, ml, mw, exi, s = case
+            omitted = MIN_OMITS[oi]
+            given = {'min_length': ml, 'min_words': mw, 'explain_minimums': EXPLAINS[exi]}
+            eff = {'min_length': 0, 'min_words': 0, 'explain_minimums': 'err'}
+            kw = dict(ACCEPT_KW[mode])
+            for k, v in given.items():
+                if k not in omitted:
+                    kw[k] = v
+                    eff[k] = v
+            g = self.cache.get(('min', mode, oi, ml, mw, exi), lambda: self.SG(**kw))
+            out = run(g, None, s)
+            return judge_validated(out, None, 'defaults', lambda t: True, None, DEFAULT_BITS, mode, 'err',
+                                   eff['explain_minimums'], s, ml=eff['min_length'], mw=eff['min_words'])
+        _, oi, exi, vm, s = case
+        omitted = VAL_OMITS[oi]
+        kw = {'validation_pattern': 'cat', 'explain_minimums': EXPLAINS[(exi + 1) % 3] if 'explain_validation'
+              not in omitted else None}
+        explain = 'err'
+        msg = DEFAULT_INVALID_MSG
+        if 'explain_validation' not in omitted:
+            kw['explain_validation'] = explain = EXPLAINS[exi]
+        if 'invalid_msg' not in omitted:
+            kw['invalid_msg'] = msg = INVALID_MSG
+        if vm == 'compare':
+            kw['answers'] = 'cat'
+        else:
+            kw.update(ACCEPT_KW[vm])
+        g = self.cache.get(('val', oi, exi, vm), lambda: self.SG(**kw))
+        out = run(g, None, s)
+        return judge_validated(out, 'cat', 'defaults', lambda t: t == 'cat', 'cat', DEFAULT_BITS, vm, explain,
+                               kw['explain_minimums'], s, invalid_msg=msg)
+
+
+# ------------------------------------------------------------------------------ sizes beyond the exhaustive bound
+
+RUN_EXPECTED = ['ab', 'a b', 'a  b', ' ab', 'ab ']
+RUN_POSITIONS = ['mid', 'lead', 'trail']
+PANGRAM = 'The quick brown fox jumps over the lazy dog'
+
+
+def run_string(pos, unit, k):
+    w = unit * k
+    return 'a' + w + 'b' if pos == 'mid' else (w + 'ab' if pos == 'lead' else 'ab' + w)
+
+
+def long_base(n):
+    return ' '.join([PANGRAM] * n)
+
+
+def long_edits(b):
+    m = len(b) // 2
+    while b[m] == ' ':
+        m += 1
+    first_sp = b.index(' ')
+    last_sp = b.rindex(' ')
+    out = [b, b[:-1], b + 's', b[:-1] + 'G', b[:-1] + 'h', 't' + b[1:], 'X' + b[1:], b[:m] + '#' + b[m + 1:],
+           b[:first_sp] + '  ' + b[first_sp + 1:], b[:last_sp] + '  ' + b[last_sp + 1:],
+           b[:last_sp] + '\t' + b[last_sp + 1:], b[:last_sp] + '\r\n' + b[last_sp + 1:],
+           b[:last_sp] + b[last_sp + 1:], b + ' ', ' ' + b, b + '\n', b.replace(' ', ''),
+           b.replace(' ', '   '), ''.join(SWAPCASE.get(c, c) for c in b)]
+    seen, uniq = set(), []
+    for s in out:
+        if s not in seen:
+            seen.add(s)
+            uniq.append(s)
+    return uniq
+
+
+class LongRuns(Family):
+    name = 'long_runs_and_long_strings'
+    timeout = 10.0
+    rule = ('(run) k copies of one white-space unit {space, tab, LF; thorough: + CR, CRLF, space-tab-LF} between, '
+            'before or after "ab", k in {0..6, 8, 9, 17, 33} (thorough: 0..12, 16, 17, 32, 33, 64, 65, 129) against '
+            'each of %r, in both roles (expected / submission) x the 8 flag sets with case_sensitive on: a run of '
+            'ANY length collapses to one space (clean_spaces), is removed at the ends (strip) or everywhere '
+            '(strip_all), and is kept character for character otherwise; (long) a pangram repeated 1, 5 and 25 '
+            'times (43 / 219 / 1099 characters) against 18 single edits of itself (last / first / middle character '
+            'changed, dropped or added, a space doubled / tabbed / removed near either end, all spaces removed or '
+            'tripled, all cases swapped) in both roles x all 16 flag sets' % (RUN_EXPECTED,))
+
+    def setup(self, tier):
+        from mitxgraders import StringGrader
+        self.SG = StringGrader
+        self.cache = GraderCache()
+
+    def run_subs(self, tier):
+        if tier == 'quick':
+            units, ks = [' ', '\t', '\n'], [0, 1, 2, 3, 4, 5, 6, 8, 9, 17, 33]
+        else:
+            units = [' ', '\t', '\n', '\r', '\r\n', ' \t\n']
+            ks = list(range(13)) + [16, 17, 32, 33, 64, 65, 129]
+        seen, out = set(), []
+        for pos in RUN_POSITIONS:
+            for unit in units:
+                for k in ks:
+                    s = run_string(pos, unit, k)
+                    if s not in seen:
+                        seen.add(s)
+                        out.append(s)
+        return out
+
+    def cases(self, tier):
+        subs = self.run_subs(tier)
+        flagsets = [b for b in range(16) if b & 1]
+        keys = [(bits, e) for e in RUN_EXPECTED for bits in flagsets]
+        for (bits, e), s in chunked(keys, subs):
+            yield (bits, e, s, 0)
+        keys = [(bits, e) for e in subs for bits in flagsets]
+        for (bits, e), s in chunked(keys, RUN_EXPECTED):
+            yield (bits, e, s, 0)
+        for n in (1, 5, 25):
+            eds = long_edits(long_base(n))
+            for i, ed in enumerate(eds):
+                for bits in range(16):
+                    yield (bits, n, i, 1)           # the base is the answer
+                    if i:
+                        yield (bits, n, i, 2)       # the edit is the answer
+
+    def unpack(self, case):
+        bits, a, b, kind = case
+        if kind == 0:
+            return bits, a, b
+        base = long_base(a)
+        ed = long_edits(base)[b]
+        return (bits, base, ed) if kind == 1 else (bits, ed, base)
+
+    def describe(self, case):
+        bits, e, s = self.unpack(case)
+
+        def short(t):
+            return repr(t) if len(t) <= 60 else '%r...%r (%d characters)' % (t[:25], t[-25:], len(t))
+        return {'flags': ref.flag_name(bits), 'expected': short(e), 'submission': short(s)}
+
+    def check(self, case):
+        bits, e, s = self.unpack(case)
+        g = self.cache.get((bits, e), lambda: self.SG(answers=e, **ref.flag_kwargs(bits)))
+        return judge_match(run(g, None, s), e, s, bits)
+
+
+LARGE_MINS = [(10, 0), (100, 0), (1000, 0), (0, 10), (0, 100), (100, 10)]
+
+
+def large_subs():
+    ns = [9, 10, 11, 99, 100, 101, 999, 1000, 1001]
+    ms = [9, 10, 11, 99, 100, 101]
+    return (['x' * n for n in ns] + [' ' + 'x' * n + ' ' for n in ns] + [' '.join(['w'] * m) for m in ms]
+            + ['  '.join(['w'] * m) + ' ' for m in ms] + ['\t'.join(['wo'] * m) for m in ms])
+
+
+class LargeMinimums(Family):
+    name = 'accept_any_large_minimums'
+    timeout = 5.0
+    rule = ('{accept_any, accept_nonempty} x (min_length, min_words) in %r x explain_minimums {err,msg,None} x '
+            '{default flags, strip and clean_spaces off} x submissions of 9/10/11, 99/100/101, 999/1000/1001 '
+            'characters (bare and with one space at each end) and of 9/10/11, 99/100/101 words (joined by one '
+            'space, by two spaces plus a trailing space, by tabs): the same closed formulas as accept_any_minimums at '
+            'magnitudes where <have>/<required> have 2 to 4 digits; non-trivial = within 1 of a requirement'
+            % (LARGE_MINS,))
+
+    def setup(self, tier):
+        from mitxgraders import StringGrader
+        self.SG = StringGrader
+        self.cache = GraderCache()
+        self.subs = large_subs()
+
+    def cases(self, tier):
+        subs = large_subs()
+        keys = [(mode, mi, ex, bits) for mode in ('any', 'nonempty') for mi in range(len(LARGE_MINS))
+                for ex in (0, 1, 2) for bits in (DEFAULT_BITS, 0b0001)]
+        for key, si in chunked(keys, list(range(len(subs)))):
+            yield key + (si,)
+
+    def describe(self, case):
+        mode, mi, ex, bits, si = case
+        s = large_subs()[si]
+        return {'mode': mode, 'min_length': LARGE_MINS[mi][0], 'min_words': LARGE_MINS[mi][1],
+                'explain_minimums': EXPLAINS[ex], 'flags': ref.flag_name(bits),
+                'submission': '%r... (%d characters)' % (s[:20], len(s))}
+
+    def check(self, case):
+        mode, mi, ex, bits, si = case
+        s = self.subs[si]
+        ml, mw = LARGE_MINS[mi]
+
+        def build():
+            kw = dict(ACCEPT_KW[mode])
+            kw.update(ref.flag_kwargs(bits))
+            kw.update(min_length=ml, min_words=mw, explain_minimums=EXPLAINS[ex])
+            return self.SG(**kw)
+        g = self.cache.get((mode, mi, ex, bits), build)
+        out = run(g, None, s)
+        res = judge_validated(out, None, 'large', lambda t: True, None, bits, mode, 'err', EXPLAINS[ex], s,
+                              ml=ml, mw=mw)
+        cleaned = ref.normal_form(s, bits)
+        near = abs(len(cleaned) - max(ml, 1 if mode == 'nonempty' else 0)) <= 1 or \
+            (mw > 0 and abs(ref.count_words(cleaned) - mw) <= 1)
+        return Result(res.outcome, near, res.violation, res.calls)
+
+
+# ------------------------------------------------------------------------------ several expected answers
+
+MULTI_STRS = ['', 'a', 'A', ' a', 'a a', 'a  a', 'aa']
+MULTI_FORMS = ['tuple', 'credits', 'credits-rev', 'expect-tuple']
+HALF = {'ok': 'partial', 'grade_decimal': 0.5, 'msg': 'half'}
+
+
+class SeveralAnswers(Family):
+    name = 'several_expected_answers'
+    timeout = 5.0
+    rule = ('two different expected strings e1, e2 and a submission, all from %r, x all 16 flag sets x the answers '
+            'given as {a tuple (e1, e2); (e1 for full credit, e2 for credit 0.5 with message "half"); (e1 for 0.5 '
+            'with "half", e2 for full credit); thorough: one answer whose expect is the tuple (e1, e2)}: EVERY '
+            'expected string is cleaned and compared by the same rule, the first as well as a later one; the '
+            'result is the best credit among the expected strings the submission matches; non-trivial = the '
+            'submission differs from both raw strings but matches at least one under the most permissive cleaning'
+            % (MULTI_STRS,))
+
+    def setup(self, tier):
+        from mitxgraders import StringGrader
+        self.SG = StringGrader
+        self.cache = GraderCache()
+
+    def cases(self, tier):
+        forms = [0, 1, 2] if tier == 'quick' else [0, 1, 2, 3]
+        keys = [(form, bits, e1, e2) for form in forms for e1 in MULTI_STRS for e2 in MULTI_STRS if e1 != e2
+                for bits in range(16)]
+        for key, s in chunked(keys, MULTI_STRS):
+            yield key + (s,)
+
+    def describe(self, case):
+        form, bits, e1, e2, s = case
+        return {'answers': MULTI_FORMS[form], 'e1': repr(e1), 'e2': repr(e2), 'flags': ref.flag_name(bits),
+                'submission': repr(s)}
+
+    def check(self, case):
+        form, bits, e1, e2, s = case
+        kind = MULTI_FORMS[form]
+
+        def build():
+            if kind == 'tuple':
+                answers = (e1, e2)
+            elif kind == 'expect-tuple':
+                answers = {'expect': (e1, e2)}
+            elif kind == 'credits':
+                answers = ({'expect': e1, 'grade_decimal': 1}, {'expect': e2, 'grade_decimal': 0.5, 'msg': 'half'})
+            else:
+                answers = ({'expect': e1, 'grade_decimal': 0.5, 'msg': 'half'}, {'expect': e2, 'grade_decimal': 1})
+            return self.SG(answers=answers, **ref.flag_kwargs(bits))
+        g = self.cache.get((form, bits, e1, e2), build)
+        out = run(g, None, s)
+        m1 = ref.match_verdict(e1, s, bits)
+        m2 = ref.match_verdict(e2, s, bits)
+        nontrivial = (s != e1 and s != e2 and (ref.match_verdict(e1, s, ALL_ON) is not False
+                                               or ref.match_verdict(e2, s, ALL_ON) is not False))
+        if out[0] == 'err':
+            return Result('raised', nontrivial,
+                          viol('several:raises:%s' % type(out[1]).__name__, 'plain comparison raised', 'a grade',
+                               show(out)))
+        if m1 is None or m2 is None:
+            return Result('open', nontrivial)
+        if kind in ('tuple', 'expect-tuple'):
+            want = CORRECT if (m1 or m2) else WRONG
+        elif kind == 'credits':
+            want = CORRECT if m1 else (HALF if m2 else WRONG)
+        else:
+            want = CORRECT if m2 else (HALF if m1 else WRONG)
+        res = out[1]
+        ok = (isinstance(res, dict) and set(res) == set(want) and res['ok'] == want['ok']
+              and type(res['ok']) is type(want['ok']) and res['grade_decimal'] == want['grade_decimal']
+              and res['msg'] == want['msg'])
+        label = 'full' if want is CORRECT else ('half' if want is HALF else 'none')
+        if ok:
+            return Result('credit:' + label, nontrivial)
+        which = 'first' if (m1 and not m2) else ('later' if (m2 and not m1) else ('both' if m1 else 'neither'))
+        return Result('WRONG:' + label, nontrivial,
+                      viol('several:%s-answer-matches:%s' % (which, diff_kinds(e1 if which == 'first' else e2, s)),
+                           '%s: answers %s of (%r, %r), submission %r: reference says e1 %s, e2 %s'
+                           % (ref.flag_name(bits), kind, e1, e2, s, 'matches' if m1 else 'does not match',
+                              'matches' if m2 else 'does not match'), want, res))
+
+
+# ------------------------------------------------------------------------------ wide punctuation / Unicode alphabet
+
+UNITS = (list(u'!"#$%&\'()*+,-./:;<=>?@[\\]^_`{|}~') + ['0', '9', 'z', 'Z', 'e']
+         + [u'\xe9', u'\xc9', u'e\u0301', u'E\u0301', u'\xfc', u'\xdc', u'\u03bb', u'\u039b', u'\uff41', u'\uff21']
+         + list(ref.EXOTIC_WS) + list(ref.EXOTIC_CASELESS))
+UNIT_FLAGS_QUICK = [ALL_ON, DEFAULT_BITS]
+EDGE_FLAGS_QUICK = [ALL_ON, DEFAULT_BITS, 0b0000, 0b0011]
+
+
+class WideUnits(Family):
+    name = 'punctuation_and_unicode_units'
+    timeout = 5.0
+    rule = ('%d units: all 32 ASCII punctuation characters, digits, z/Z, e, precomposed and decomposed (e + combining '
+            'acute) accented letters in both cases, U-umlaut, Greek lambda and fullwidth A in both cases, %d kinds '
+            'of Unicode / control white space and zero-width "spaces", NUL, DEL, soft hyphen, zero-width joiners, '
+            'typographic quotes and dashes, minus sign, superscript two, one half, Arabic-Indic zero, an astral '
+            'emoji.  (pair) "x"+u+"y" expected, "x"+v+"y" submitted for EVERY ordered pair of units (u = v as control) '
+            'x {most permissive cleaning, documented defaults} (thorough: all 16): equal only if u = v or u, v are '
+            'the two cases of one letter and case is folded; (edge) u inserted in / removed from "xy" at the '
+            'start, middle, end, in both roles x {most permissive, defaults, all off, strip only} (thorough: all '
+            '16): never ignored, except that units of the white-space kind at an END under strip are left open'
+            % (len(UNITS), len(ref.EXOTIC_WS)))
+
+    def setup(self, tier):
+        from mitxgraders import StringGrader
+        self.SG = StringGrader
+        self.cache = GraderCache()
+
+    def cases(self, tier):
+        pair_flags = UNIT_FLAGS_QUICK if tier == 'quick' else list(range(16))
+        edge_flags = EDGE_FLAGS_QUICK if tier == 'quick' else list(range(16))
+        n = len(UNITS)
+        keys = [(bits, i) for i in range(n) for bits in pair_flags]
+        for (bits, i), j in chunked(keys, list(range(n))):
+            yield (bits, 'p', i, j)
+        for i in range(n):
+            for bits in edge_flags:
+                for shape in range(6):
+                    yield (bits, 'e', i, shape)
+
+    @staticmethod
+    def unpack(case):
+        bits, kind, i, j = case
+        u = UNITS[i]
+        if kind == 'p':
+            return bits, 'x' + u + 'y', 'x' + UNITS[j] + 'y'
+        with_u = ['x' + u + 'y', u + 'xy', 'xy' + u][j % 3]
+        return (bits, with_u, 'xy') if j < 3 else (bits, 'xy', with_u)
+
+    def describe(self, case):
+        bits, e, s = self.unpack(case)
+        return {'flags': ref.flag_name(bits), 'expected': ascii(e), 'submission': ascii(s)}
+
+    def check(self, case):
+        bits, e, s = self.unpack(case)
+        g = self.cache.get((bits, e), lambda: self.SG(answers=e, **ref.flag_kwargs(bits)))
+        nontrivial = e != s
+        return judge_match(run(g, None, s), e, s, bits, nontrivial=nontrivial)
+
+
+# ------------------------------------------------------------------------------ the expect argument, falsy values
+
+SHORT = list(strings_upto('a ', 2))
+
+
+class ExpectArgument(Family):
+    name = 'expect_argument_short_strings'
+    timeout = 5.0
+    rule = ('(compare) a grader without answers, called as grader(expected, submission) for every pair of strings of '
+            'length <= 2 over {a, space} -- including the EMPTY expected string -- x all 16 flag sets, one grader per '
+            'flag set so the answer is re-inferred on every call; (accept) {accept_any, accept_nonempty} x the empty '
+            'string supplied as {expect argument "", answers="", answers dict with expect ""} x all 16 flag sets x '
+            'the same submissions: accepted iff the cleaned submission meets the (default) minimums; (configured) the '
+            'answer in the configuration AND a different, never matching expect argument "zzz" (edX always passes the '
+            'displayed answer): graded against the configured answer only')
+
+    def setup(self, tier):
+        from mitxgraders import StringGrader
+        self.SG = StringGrader
+        self.cache = GraderCache()
+
+    def cases(self, tier):
+        for e in SHORT:
+            for s in SHORT:
+                for bits in range(16):
+                    yield ('cmp', bits, e, s)
+        for mode in ('any', 'nonempty'):
+            for supply in (0, 1, 2):
+                for s in SHORT:
+                    for bits in range(16):
+                        yield ('acc', bits, mode, supply, s)
+        for e in SHORT:
+            for s in SHORT + ['zzz']:
+                for bits in range(16):
+                    yield ('cfg', bits, e, s)
+
+    def describe(self, case):
+        if case[0] == 'cmp':
+            _, bits, e, s = case
+            return {'flags': ref.flag_name(bits), 'expect argument': repr(e), 'submission': repr(s)}
+        if case[0] == 'cfg':
+            _, bits, e, s = case
+            return {'flags': ref.flag_name(bits), 'answers': repr(e), 'expect argument': "'zzz'",
+                    'submission': repr(s)}
+        _, bits, mode, supply, s = case
+        return {'flags': ref.flag_name(bits), 'mode': mode,
+                'empty string supplied as': ['expect argument', 'answers=""', 'answers={"expect": ""}'][supply],
+                'submission': repr(s)}
+
+    def check(self, case):
+        if case[0] == 'cmp':
+            _, bits, e, s = case
+            g = self.cache.get(('cmp', bits), lambda: self.SG(**ref.flag_kwargs(bits)))
+            return judge_match(run(g, e, s), e, s, bits)
+        if case[0] == 'cfg':
+            _, bits, e, s = case
+            g = self.cache.get(('cfg', bits, e), lambda: self.SG(answers=e, **ref.flag_kwargs(bits)))
+            return judge_match(run(g, 'zzz', s), e, s, bits)
+        _, bits, mode, supply, s = case
+
+        def build():
+            kw = dict(ACCEPT_KW[mode])
+            kw.update(ref.flag_kwargs(bits))
+            if supply == 1:
+                kw['answers'] = ''
+            elif supply == 2:
+                kw['answers'] = {'expect': ''}
+            return self.SG(**kw)
+        g = self.cache.get(('acc', bits, mode, supply), build)
+        out = run(g, '' if supply == 0 else None, s)
+        return judge_validated(out, None, 'expect-arg', lambda t: True, None, bits, mode, 'err', 'err', s)
+
+
+# ------------------------------------------------------------------------------ StringGrader inside a ListGrader
+
+LIST_STRS = ['a', 'A', ' a', 'a ', 'a a', 'a  a', 'a\ta', 'aa']
+
+
+class InsideLists(Family):
+    name = 'inside_list_grader'
+    timeout = 5.0
+    rule = ('the same StringGrader configuration used as the subgrader of an ordered two-box ListGrader: every pair '
+            '(expected, submission) from %r placed in the FIRST or the SECOND box (the other box holds a fixed '
+            'matching pair "k"/"k") x all 16 flag sets: the box is marked correct iff the reference normal forms '
+            'are equal, exactly as for the stand-alone grader (the cleaning must not depend on the entry point)'
+            % (LIST_STRS,))
+
+    def setup(self, tier):
+        from mitxgraders import StringGrader, ListGrader
+        self.SG = StringGrader
+        self.LG = ListGrader
+        self.cache = GraderCache()
+
+    def cases(self, tier):
+        keys = [(bits, slot, e) for e in LIST_STRS for slot in (0, 1) for bits in range(16)]
+        for key, s in chunked(keys, LIST_STRS):
+            yield key + (s,)
+
+    def describe(self, case):
+        bits, slot, e, s = case
+        return {'flags': ref.flag_name(bits), 'box': slot + 1, 'expected': repr(e), 'submission': repr(s)}
+
+    def check(self, case):
+        bits, slot, e, s = case
+
+        def build():
+            answers = [e, 'k'] if slot == 0 else ['k', e]
+            return self.LG(answers=answers, subgraders=self.SG(**ref.flag_kwargs(bits)), ordered=True)
+        g = self.cache.get((bits, slot, e), build)
+        out = run(g, None, [s, 'k'] if slot == 0 else ['k', s])
+        nontrivial = e != s and ref.match_verdict(e, s, ALL_ON) is not False
+        if out[0] == 'err':
+            return Result('raised', nontrivial,
+                          viol('list:raises:%s' % type(out[1]).__name__, 'ListGrader raised', 'a grade', show(out)))
+        res = out[1]
+        try:
+            box = res['input_list'][slot]
+            other = res['input_list'][1 - slot]
+        except Exception:       # noqa
+            return Result('malformed', nontrivial,
+                          viol('list:result-form', 'no input_list with two entries', 'input_list', res))
+        if not is_result(other, CORRECT):
+            return Result('WRONG:other-box', nontrivial,
+                          viol('list:other-box-misgraded', 'the box holding "k" for "k" is not correct', CORRECT, other))
+        return judge_match(('ok', box), e, s, bits, nontrivial=nontrivial)
+
+
 def families(tier):
     return [PairsLetters(), PairsBreaks(), PairsWide(), Edits(), AcceptAny(),
             Validation('plain'), Validation('alternation'), Validation('trailing-caret'),
-            Validation('verbose-comment'), ExpectConformance()]
+            Validation('verbose-comment'), ExpectConformance(),
+            ValidationAllFlags(), ValidationWithMinimums(), Defaults(), LongRuns(), LargeMinimums(),
+            SeveralAnswers(), WideUnits(), ExpectArgument(), InsideLists()]
